@@ -237,10 +237,13 @@ def post_step(args):
     except Exception as e:
         return ['ERR', canon_err(exc_kind(e))]
 
-def e2e_with(p, root, text):
-    """parse_to_xml on an existing parser object -> masked sx | ['ERR', kind]"""
+def e2e_with(p, root, text, via_dict=False):
+    """parse_to_xml on an existing parser object (or: parse, to_dict, xml_from_dict on its generator) -> masked sx | ['ERR', kind]"""
     from . import xmlsx
     try:
+        if via_dict:
+            tree = p.parse(text, root)
+            return mask_dates(xmlsx.norm_sx(xmlsx.to_sx(p.generator.xml_from_dict(tree.to_dict(), getattr(tree, 'is_root', False)))))
         return mask_dates(xmlsx.norm_sx(xmlsx.to_sx(p.parse_to_xml(text, root))))
     except RecursionError:
         return ['ERR', 'Recursion']
